@@ -55,6 +55,28 @@ int main(int argc, char** argv) {
         chk("ConstImpedance", ConstImpedance(n, 1e12, impedance_t(100, 20)));
         Impedance sum(n, 1e12); sum += FreeSpaceCSR(n, 9e6, 1e12); sum += ResistiveWall(n, 9e6, 1e12, 33.0, 1e6, 0.0, 0.015);
         chk("sum", sum);
+        // absolute scale (C16 "correctly scaled"), independent double-precision oracles from the textbook formulas
+        {
+            const double f0 = 9e6, fmax = 1e12, delta = fmax / f0 / (n - 1.0);
+            FreeSpaceCSR fs(n, f0, fmax);
+            for (size_t i = 0; i <= n / 2; i++) {       // Murphy et al. Eq. 6.18: Z(n) = (306.3 + 176.9 j) Ohm * n^(1/3)
+                double w = std::cbrt(i * delta);
+                cmp("FreeSpaceCSR.re", (int)n, (int)i, fs[i].real(), 306.3 * w, 2e-5, 306.3 * w + 1e-30);
+                cmp("FreeSpaceCSR.im", (int)n, (int)i, fs[i].imag(), 176.9 * w, 2e-5, 176.9 * w + 1e-30);
+            }
+            const double mu0 = 4e-7 * M_PI, c0 = 299792458.0;
+            for (double xi : {0.0, 3.0, -0.25, 99.0}) for (double sigma : {1e6, 5.8e7}) {
+                const double L = 33.0, b = 0.015;
+                ResistiveWall rw(n, f0, fmax, L, sigma, xi, b);
+                for (size_t i = 0; i <= n / 2; i++) {   // thick wall: Z = (1 - j) L/(2 pi b) sqrt(mu0 mu_r omega / (2 sigma)), omega = 2 pi f0 * (i delta)
+                    double omega = 2 * M_PI * f0 * (i * delta);
+                    double want = L / (2 * M_PI * b) * std::sqrt(mu0 * (1 + xi) * omega / (2 * sigma));
+                    cmp("ResistiveWall.re", (int)(xi * 100), (int)i, rw[i].real(), want, 1e-4, want + 1e-30);
+                    cmp("ResistiveWall.im", (int)(xi * 100), (int)i, rw[i].imag(), -want, 1e-4, want + 1e-30);
+                }
+            }
+            (void)c0;
+        }
         printf("z: %d mismatches (n=%zu)\n", bad, n);
         return bad ? 1 : 0;
     }
